@@ -201,7 +201,7 @@ def producer_rules(facts, e):
         out.append(Finding("C04.S3", not kp, e.id, "signer = validating constructor(whole private key)" if not kp else kp[0][:90], "; ".join(sorted(set(kp)))[:600], v.file(), e.body["line"],
                            "%s: signer built from the caller's entire private key by the validating constructor" % e.label))
     desc = "%s == the specification's token on %d successful paths (footer absent / empty / present%s)" % (e.label, n_ok, ", assertion absent / present" if V in ("V3", "V4") else "")
-    for rule in (("C08.S1", "C01.S0", "C10.S3") if P == "Local" else ("C08.S1", "C02.S0")):
+    for rule in (("C08.S1", "C05.S1", "C01.S0", "C10.S3") if P == "Local" else ("C08.S1", "C05.S1", "C02.S0")):
         out.append(Finding(rule, not probs, e.id, "producer computes the specification's token" if not probs else "producer deviates from the specification", "; ".join(probs)[:1500], v.file(), e.body["line"], desc))
     return out, None
 
@@ -252,7 +252,7 @@ def consumer_rules(facts, e):
     if und:
         return None, und
     nl, tl = NONCE_LEN[V], (TAG_LEN[V] if P == "Local" else PS.SIG_LEN[V])
-    probs = {"auth": [], "order": [], "ret": [], "pre": []}
+    probs = {"auth": [], "order": [], "ret": [], "pre": [], "hdr": []}
     n_ok = 0
     for o in outs:
         kind, r = _variant(I, o)
@@ -269,6 +269,14 @@ def consumer_rules(facts, e):
         if kind != "Ok":
             continue
         n_ok += 1
+        # the token's own header text was found equal to this protocol's header (whole, or segment by segment)
+        nrm = lambda t: re.sub(r"[{}']", "", str(t))
+        eqs = [frozenset((nrm(x[1]), nrm(x[2]))) for x in evs if x[0] == "equal"]
+        hv, hp = V.lower(), P.lower()
+        whole = frozenset(("parts0[0].parts0[1].", "%s.%s." % (hv, hp))) in eqs
+        segs = frozenset(("parts0[0]", hv)) in eqs and frozenset(("parts0[1]", hp)) in eqs
+        if not (whole or segs):
+            probs["hdr"].append("a token is accepted without its header segments having been found equal to '%s.%s.' (comparisons that succeeded: %s) [%s]" % (hv, hp, [tuple(sorted(q)) for q in eqs if any("parts0" in z for z in q)][:3], cond))
         if not auth_i:
             probs["auth"].append("a token is accepted without any authentication check having succeeded [%s]" % cond)
             continue
@@ -330,6 +338,7 @@ def consumer_rules(facts, e):
         for rl in rules:
             out.append(Finding(rl, not ps, e.id, what if not ps else ps[0][:90], "; ".join(sorted(set(ps)))[:1200], v.file(), e.body["line"], "%s: %s" % (lab, what)))
     emit(("C03.S1", "C04.S1", "C05.S2", "C07.S4", "C08.S2") + (("C06.S1",) if V in ("V3", "V4") else ()), "auth", "every accepted token passed the specification's authentication check (caller's key, footer, assertion; own header; whole tag / signature)")
+    emit(("C07.S6",), "hdr", "every accepted token's header segments were found equal to this protocol's own header")
     emit(("C03.S2",), "order", "no keystream / UTF-8 step before the authentication check succeeded")
     emit(("C03.S3", "C01.S10" if P == "Local" else "C02.S9", "C08.S2"), "ret", "the value returned is the strict UTF-8 reading of the authenticated message")
     emit(("C03.S8",), "pre", "a rejection before authentication is never a UTF-8 error")
